@@ -1,7 +1,7 @@
 (* C01 - Structured control flow is lowered to gotos without changing behaviour.
    This file contains only the statements; proofs live in Tr.v / Check.v / C01Proofs.v. *)
 From Coq Require Import List ZArith.
-From Pory Require Import Lexer Ast Parser Emitter Sem2 SemTgt Tr Check C01Proofs ParseWf ProgWf RenderSim RenderCheck LabelSim C01Final Worklist C01Main.
+From Pory Require Import Lexer Ast Parser Emitter Sem2 SemTgt Tr Check C01Proofs ParseWf ProgWf RenderSim RenderCheck LabelSim C01Final Worklist C01Main Format ProgSrc C01Top.
 
 (* PARTIAL (named so): source semantics = chunk-graph semantics, for every abstract game (St, exec, observers),
    every body, every run length, on every chunk graph that the verified relation checker accepts
@@ -158,3 +158,38 @@ Theorem emit_script_correct :
                (run sfinal (sstep St exec flag_set trainer_beaten cmp_var cmp_var_value case_matches (fun l => fl_body l body Kstop)) n (enter body Kstop) s)).
 Proof. exact C01Main.emit_script_correct. Qed.
 Print Assumptions emit_script_correct.
+
+
+(* ---------- the parser's output passes the source check (no validator) ---------- *)
+Theorem accepted_bodies_are_src_ok :
+  forall hl hd hs autovars switches ee fc cli_font cli_maxlen s p,
+  parse_program autovars switches ee (parse_format fc cli_font cli_maxlen ee) (lex hl hd hs s) = Parser.Ok p ->
+  Forall (fun b => src_ok b /\ scoped None None b) (ProgWf.bodies_of (tops p)).
+Proof. exact ProgSrc.accepted_bodies_are_src_ok. Qed.
+Print Assumptions accepted_bodies_are_src_ok.
+
+(* ---------- C01 from the source text ---------- *)
+(* For every text, every classification of non-ASCII code points, command configuration, switch set, font configuration and
+   mode: every script body (script statements and inline map scripts) of the parsed program is compiled correctly - the
+   emitted instruction list and the structured source perform the same commands and finish the same way, in both directions -
+   whenever the render check (labels of the emitted text unique, references resolved, no run-off) and the label check (the
+   user's labels distinct and present) pass.  Nothing is assumed about the parser's output or the emitter's chunk graph. *)
+Theorem compiled_scripts_correct :
+  forall (St : Type) (exec : cmd -> St -> stepres St) (flag_set trainer_beaten : text -> St -> bool)
+         (cmp_var cmp_var_value : text -> text -> St -> comparison) (case_matches : text -> text -> St -> bool)
+         hl hd hs autovars switches ee fc cli_font cli_maxlen (src : text) (p : program),
+  parse_program autovars switches ee (parse_format fc cli_font cli_maxlen ee) (lex hl hd hs src) = Parser.Ok p ->
+  forall body, In body (ProgWf.bodies_of (tops p)) ->
+  forall (mp : option text) (tl : list text) (name : text) (glob optimize : bool) (w : wst) (code : list instr),
+  emit_graph body = Ok w ->
+  emit_script mp tl name glob optimize body = Ok code ->
+  wf_render mp name (finals w) (order_of optimize (finals w)) code = true ->
+  labels_okb body (finals w) = true ->
+  (forall n s, exists m,
+      run sfinal (sstep St exec flag_set trainer_beaten cmp_var cmp_var_value case_matches (fun l => fl_body l body Kstop)) n (enter body Kstop) s =
+      run (@tfinal) (tstep St exec flag_set trainer_beaten cmp_var cmp_var_value case_matches code) m (jump code name) s) /\
+  (forall m s, exists n,
+      res_le (run (@tfinal) (tstep St exec flag_set trainer_beaten cmp_var cmp_var_value case_matches code) m (jump code name) s)
+             (run sfinal (sstep St exec flag_set trainer_beaten cmp_var cmp_var_value case_matches (fun l => fl_body l body Kstop)) n (enter body Kstop) s)).
+Proof. exact C01Top.compiled_scripts_correct. Qed.
+Print Assumptions compiled_scripts_correct.
